@@ -18,12 +18,18 @@ use std::cell::Cell;
 use std::sync::atomic::{AtomicBool, AtomicPtr, AtomicU64, AtomicUsize, Ordering::*};
 use std::sync::{Condvar, Mutex};
 
-const ARENA_SIZE: usize = 1 << 34; // reserved address space only (MAP_NORESERVE); touched pages are what counts
+const ARENA_SIZE: usize = 1 << 31; // reserved address space only (MAP_NORESERVE); touched pages are what counts
 const PAGE: usize = 4096;
 
 static ARENA_BASE: AtomicUsize = AtomicUsize::new(0);
 static ARENA_NEXT: AtomicUsize = AtomicUsize::new(0);
 static ARENA_INIT: Mutex<()> = Mutex::new(());
+static ARENA_FAILED: AtomicBool = AtomicBool::new(false);
+
+/// can the arena be set up here (address space reservation succeeded)?
+pub fn arena_ok() -> bool {
+    unsafe { arena_base() != 0 }
+}
 
 thread_local! {
     static ARENA_ON: Cell<bool> = const { Cell::new(false) };
@@ -49,6 +55,9 @@ unsafe fn arena_base() -> usize {
     if b != 0 {
         return b;
     }
+    if ARENA_FAILED.load(Acquire) {
+        return 0;
+    }
     let _g = ARENA_INIT.lock();
     let b = ARENA_BASE.load(Acquire);
     if b != 0 {
@@ -56,7 +65,9 @@ unsafe fn arena_base() -> usize {
     }
     let p = libc::mmap(std::ptr::null_mut(), ARENA_SIZE, libc::PROT_READ | libc::PROT_WRITE, libc::MAP_PRIVATE | libc::MAP_ANONYMOUS | libc::MAP_NORESERVE, -1, 0);
     if p == libc::MAP_FAILED {
-        libc::abort();
+        // no arena on this machine: allocations fall back to the system allocator, `arena_ok()` says so
+        ARENA_FAILED.store(true, Release);
+        return 0;
     }
     ARENA_BASE.store(p as usize, Release);
     p as usize
@@ -64,13 +75,16 @@ unsafe fn arena_base() -> usize {
 
 unsafe fn arena_alloc(l: Layout) -> *mut u8 {
     let base = arena_base();
+    if base == 0 {
+        return System.alloc(l);
+    }
     let align = l.align().max(16);
     let mut cur = ARENA_NEXT.load(Relaxed);
     loop {
         let start = (cur + align - 1) & !(align - 1);
         let end = start + l.size();
         if end > ARENA_SIZE {
-            return std::ptr::null_mut();
+            return System.alloc(l);
         }
         match ARENA_NEXT.compare_exchange_weak(cur, end, Relaxed, Relaxed) {
             Ok(_) => return (base + start) as *mut u8,
